@@ -11,6 +11,7 @@ import (
 	"verifharness/plancoq"
 
 	"github.com/element-of-surprise/coercion/workflow"
+	"github.com/element-of-surprise/coercion/workflow/storage/cosmosdb"
 	"github.com/google/uuid"
 )
 
@@ -27,6 +28,7 @@ type Rec struct {
 	table   []string
 	tableIx map[string]int
 	steps   []string
+	items   []string
 
 	Log    []map[string]any // human-readable trace for replays
 	Notes  []string         // panics
@@ -134,7 +136,10 @@ func errText(err error) string {
 
 func (r *Rec) push(opTerm, kind string, err error, okT string, extra map[string]any) {
 	r.OpHist[kind]++
-	obs, human := r.observe(okT)
+	obs, human := "(Build_obs None [] [])", map[string]any{}
+	if !r.NoObs {
+		obs, human = r.observe(okT)
+	}
 	r.steps = append(r.steps, core.Pair(opTerm, obs))
 	e := map[string]any{"op": kind, "err": errText(err), "after": human}
 	for k, v := range extra {
@@ -154,10 +159,8 @@ func (r *Rec) Create(give, ref *workflow.Plan, what string) error {
 // Created_ records a create that the caller performed itself (Submit, killed child).
 func (r *Rec) Created_(ref *workflow.Plan, err error, what, ctor string) error {
 	NormPlan(ref)
-	if err == nil || ctor == "CKilledCreate" {
-		if _, dup := r.Created[ref.ID]; !dup {
-			r.Created[ref.ID] = ref
-		}
+	if _, dup := r.Created[ref.ID]; !dup {
+		r.Created[ref.ID] = ref // used only to order actions read through the cosmos fake
 	}
 	okT := okTerm(err)
 	if ctor == "CKilledCreate" {
@@ -172,10 +175,15 @@ func (r *Rec) Created_(ref *workflow.Plan, err error, what, ctor string) error {
 func (r *Rec) Delete(id uuid.UUID) error {
 	var err error
 	r.guard("Delete", func() { err = r.B.Vault.Delete(r.Ctx, id) })
+	return r.Deleted_(id, err, "delete", "CDelete")
+}
+
+// Deleted_ records a delete that the caller performed itself (fault injection).
+func (r *Rec) Deleted_(id uuid.UUID, err error, what, ctor string) error {
 	if err == nil {
 		delete(r.Created, id)
 	}
-	r.push(core.App("CDelete", r.Cx.Uid(id)), "delete", err, okTerm(err), map[string]any{"plan": id.String()})
+	r.push(core.App(ctor, r.Cx.Uid(id)), what, err, okTerm(err), map[string]any{"plan": id.String()})
 	return err
 }
 
@@ -196,7 +204,7 @@ func (r *Rec) UpdateBlock(planID, id uuid.UUID, st *workflow.State) error {
 	b.SetPlanID(planID)
 	var err error
 	r.guard("UpdateBlock", func() { err = r.B.Vault.UpdateBlock(r.Ctx, b) })
-	r.push(core.App("CUpdateBlock", r.Cx.Uid(id), stateTerm(st)), "update-block", err, okTerm(err), map[string]any{"id": id.String()})
+	r.push(core.App("CUpdateBlock", r.Cx.Uid(planID), r.Cx.Uid(id), stateTerm(st)), "update-block", err, okTerm(err), map[string]any{"id": id.String()})
 	return err
 }
 
@@ -205,7 +213,7 @@ func (r *Rec) UpdateChecks(planID, id uuid.UUID, st *workflow.State) error {
 	c.SetPlanID(planID)
 	var err error
 	r.guard("UpdateChecks", func() { err = r.B.Vault.UpdateChecks(r.Ctx, c) })
-	r.push(core.App("CUpdateChecks", r.Cx.Uid(id), stateTerm(st)), "update-checks", err, okTerm(err), map[string]any{"id": id.String()})
+	r.push(core.App("CUpdateChecks", r.Cx.Uid(planID), r.Cx.Uid(id), stateTerm(st)), "update-checks", err, okTerm(err), map[string]any{"id": id.String()})
 	return err
 }
 
@@ -214,7 +222,7 @@ func (r *Rec) UpdateSequence(planID, id uuid.UUID, st *workflow.State) error {
 	s.SetPlanID(planID)
 	var err error
 	r.guard("UpdateSequence", func() { err = r.B.Vault.UpdateSequence(r.Ctx, s) })
-	r.push(core.App("CUpdateSequence", r.Cx.Uid(id), stateTerm(st)), "update-sequence", err, okTerm(err), map[string]any{"id": id.String()})
+	r.push(core.App("CUpdateSequence", r.Cx.Uid(planID), r.Cx.Uid(id), stateTerm(st)), "update-sequence", err, okTerm(err), map[string]any{"id": id.String()})
 	return err
 }
 
@@ -230,14 +238,39 @@ func (r *Rec) UpdateAction(planID, id uuid.UUID, plugin string, st *workflow.Sta
 		at.Resp = NormValue(at.Resp)
 		xs[i] = r.Cx.Attempt(at)
 	}
-	r.push(core.App("CUpdateAction", r.Cx.Uid(id), stateTerm(st), core.List(xs)), "update-action", err, okTerm(err),
+	r.push(core.App("CUpdateAction", r.Cx.Uid(planID), r.Cx.Uid(id), stateTerm(st), core.List(xs)), "update-action", err, okTerm(err),
 		map[string]any{"id": id.String(), "attempts": len(refAtts)})
 	return err
 }
 
+// Items records what cosmosdb's planToItems emits for give (VerifPlanItems), next to ref, the
+// harness's structurally equal copy. It returns the number of items.
+func (r *Rec) Items(give, ref *workflow.Plan) int {
+	var raw [][]byte
+	var err error
+	r.guard("VerifPlanItems", func() { raw, _, err = cosmosdb.VerifPlanItems(give) })
+	if err != nil {
+		r.Notes = append(r.Notes, "panic-class: VerifPlanItems failed on a storable plan: "+err.Error())
+		return 0
+	}
+	NormPlan(ref)
+	var xs []string
+	r.guard("abstraction of items", func() {
+		for _, it := range raw {
+			t, err := ItemTerm(r.Cx, it)
+			if err != nil {
+				panic(err)
+			}
+			xs = append(xs, t)
+		}
+		r.items = append(r.items, core.Pair(r.Cx.Plan(ref), core.List(xs)))
+	})
+	return len(raw)
+}
+
 // CaseTerm is the Coq term of the recorded case.
 func (r *Rec) CaseTerm() string {
-	return core.App("Build_case", core.Nat(r.B.Kind), core.List(r.table), core.List(r.steps))
+	return core.App("Build_case", core.Nat(r.B.Kind), core.List(r.table), core.List(r.steps), core.List(r.items))
 }
 
 func (r *Rec) Steps() int     { return len(r.steps) }
